@@ -7,7 +7,7 @@ use jsonrpsee_core::client::IdKind;
 use serde_json::{Value, json};
 use std::time::Duration;
 
-#[derive(Clone, Debug)]
+#[derive(Clone, Debug, PartialEq)]
 pub enum Fault {
 	/// the n-th transport send fails
 	Send(usize),
@@ -17,6 +17,8 @@ pub enum Fault {
 	PeerClose(usize),
 	/// a message that is not JSON-RPC
 	Garbage(usize, &'static str),
+	/// pings are enabled and writing a ping fails (first tick: at start-up)
+	Ping,
 }
 
 impl Fault {
@@ -26,6 +28,7 @@ impl Fault {
 			Fault::Recv(n) => format!("recv-error@{n}"),
 			Fault::PeerClose(n) => format!("peer-close@{n}"),
 			Fault::Garbage(n, t) => format!("bad-message@{n}:{t}"),
+			Fault::Ping => "ping-error".to_string(),
 		}
 	}
 	fn kind(&self) -> &'static str {
@@ -34,6 +37,7 @@ impl Fault {
 			Fault::Recv(_) => "recv-error",
 			Fault::PeerClose(_) => "peer-close",
 			Fault::Garbage(..) => "bad-message",
+			Fault::Ping => "ping-error",
 		}
 	}
 	/// text that the disconnect cause must display
@@ -42,6 +46,7 @@ impl Fault {
 			Fault::Send(_) => vec!["injected-send-fault"],
 			Fault::Recv(_) => vec!["injected-recv-fault"],
 			Fault::PeerClose(_) => vec!["connection closed by peer"],
+			Fault::Ping => vec!["injected-ping-fault"],
 			Fault::Garbage(_, t) => match *t {
 				"not json" => vec!["Unparseable message"],
 				"{}" => vec!["Unparseable message"],
@@ -74,9 +79,11 @@ impl FaultScenario {
 			Fault::Recv(a) => env.push(EnvEvent::RecvError { after: *a, what: "injected-recv-fault".into() }),
 			Fault::PeerClose(a) => env.push(EnvEvent::RecvError { after: *a, what: "connection closed by peer".into() }),
 			Fault::Garbage(a, t) => env.push(EnvEvent::Raw { after: *a, text: t.to_string() }),
+			Fault::Ping => {}
 		}
 		let late_after = env.len();
-		CliScenarioCfg { rx_split: false, ping_ms: None, warmup: 0, id_kind: self.id_kind, ops: self.ops.clone(), env, fail_send_at, tx_points: self.tx_points, buffer_cap: 4, late_after }
+		let ping = self.fault == Fault::Ping;
+		CliScenarioCfg { rx_split: false, ping_ms: None, send_ping_ms: if ping { Some(5) } else { None }, fail_ping: ping, warmup: 0, id_kind: self.id_kind, ops: self.ops.clone(), env, fail_send_at, tx_points: self.tx_points, buffer_cap: 4, late_after }
 	}
 }
 
@@ -120,6 +127,7 @@ impl Scenario for FaultScenario {
 		}
 		// did the fault actually happen in this execution? (a send fault on the n-th send needs n+1 sends)
 		let fault_happened = match &self.fault {
+			Fault::Ping => _trace.iter().any(|l| l == "tx:ping:FAULT"),
 			Fault::Send(n) => *st.shared.send_calls.lock().unwrap() > *n,
 			_ => l.deliveries.iter().any(|(k, _, _)| *k == self.answered.len()),
 		};
@@ -170,6 +178,17 @@ impl Scenario for FaultScenario {
 						v.push((format!("wrong-cause:on_disconnect:{fk}"), format!("on_disconnect() = {e}, expected cause {markers:?}")));
 					}
 				}
+			}
+		}
+		// a client that knows its connection has failed stops writing to it: with no scheduling points inside the library
+		// the failure is processed as soon as it is delivered, so at most the frame being written and one more go out
+		if !self.lib_points && !self.all_points && self.ops.iter().any(|o| matches!(o, FeOp::NotifBurst(_))) {
+			if let Some(at) = _trace.iter().position(|l| l.contains(":deliver:ERROR:")) {
+				let later = _trace[at..].iter().filter(|l| l.starts_with("tx:send#") && !l.ends_with("FAULT")).count();
+				if later > 2 {
+					v.push((format!("keeps-writing-after-failure:{fk}"), format!("{later} frames were written to the transport after the {fk} fault had been delivered to the client (the queue held more requests)")));
+				}
+				outcome.push(format!("frames-after-failure={}", later.min(3)));
 			}
 		}
 		outcome.push(format!("fault={fault_happened}"));
@@ -241,6 +260,16 @@ fn scenarios(thorough: bool) -> Vec<FaultScenario> {
 				}
 			}
 		}
+	}
+	// a failing ping (pings enabled, first tick at start-up)
+	for ops in [vec![FeOp::Call], vec![FeOp::Call, FeOp::LateCall], vec![FeOp::Subscribe, FeOp::Batch(2)]] {
+		for id_kind in [IdKind::Number, IdKind::String] {
+			out.push(FaultScenario { id_kind, ops: ops.clone(), answered: vec![], fault: Fault::Ping, lib_points: true, tx_points: true, all_points: thorough, hold_once: false });
+		}
+	}
+	// a queue full of requests when the receive side fails: the send task must stop, not drain the queue
+	for f in [Fault::Recv(1), Fault::PeerClose(1), Fault::Garbage(1, "not json")] {
+		out.push(FaultScenario { id_kind: IdKind::Number, ops: vec![FeOp::Call, FeOp::NotifBurst(8)], answered: vec![], fault: f, lib_points: false, tx_points: true, all_points: false, hold_once: false });
 	}
 	// the same tasks held back once and then running back to back (once-only points), a few histories × faults
 	for ops in [vec![FeOp::Call, FeOp::Call], vec![FeOp::Call, FeOp::Subscribe], vec![FeOp::Call, FeOp::Batch(2), FeOp::LateCall]] {
@@ -323,7 +352,7 @@ impl Scenario for HostileScenario {
 		ops.push(FeOp::LateCall);
 		let sends = self.pending.len();
 		let env = vec![EnvEvent::Raw { after: sends, text: self.text.clone() }, EnvEvent::Answer { msg: sends, kind: AnswerKind::Ok }];
-		clim::setup(&CliScenarioCfg { rx_split: false, ping_ms: None, warmup: 0, id_kind: IdKind::Number, ops, env, fail_send_at: None, tx_points: false, buffer_cap: 4, late_after: 1 })
+		clim::setup(&CliScenarioCfg { rx_split: false, ping_ms: None, send_ping_ms: None, fail_ping: false, warmup: 0, id_kind: IdKind::Number, ops, env, fail_send_at: None, tx_points: false, buffer_cap: 4, late_after: 1 })
 	}
 	fn judge(&self, st: CliState, _trace: &[String], panics: &[String], status: Status) -> Verdict {
 		let mut v = Vec::new();
@@ -419,7 +448,7 @@ pub fn check(rep: &Reporter) {
 		use jsonrpsee_core::client::{ClientT, SubscriptionClientT};
 		let rt = tokio::runtime::Builder::new_current_thread().enable_all().build().unwrap();
 		let res = rt.block_on(async {
-			let shared = std::sync::Arc::new(clim::Shared { rx_split: false,
+			let shared = std::sync::Arc::new(clim::Shared { rx_split: false, fail_ping: false,
 				sent: Default::default(),
 				send_calls: Default::default(),
 				fail_send_at: None,
